@@ -1,8 +1,11 @@
 package main
 
 // Maps are abstract objects. For a map object o of type map[K]V the state is
-//   has!<T>(o, key slots...) : Bool      val!<T>,i(o, key slots...) : slot i of V     len!(o) : BV64
-// kept, like memory, as Go-side layers over uninterpreted base functions.
+//
+//	has(o, key slots...) : Bool      v_i(o, key slots...) : slot i of V     len : BV64 memory at (o, 0)
+//
+// kept, like memory, as Go-side layers over uninterpreted base functions. Iteration
+// (range) is abstract: every step yields an arbitrary entry of the map (see rangeNext).
 
 import (
 	"fmt"
@@ -11,70 +14,269 @@ import (
 	"golang.org/x/tools/go/ssa"
 )
 
-type mapLayer struct {
-	prev   *mapLayer
-	kind   int // 0 base, 1 update, 2 delete, 3 ite, 4 havoc-all
-	name   string
-	obj    *Term
-	key    []*Term
-	val    []*Term
-	c      *Term
-	a, b   *mapLayer
-	id     int
-	vsorts []Sort
+type mapKind int
+
+const (
+	mpBase mapKind = iota
+	mpStore
+	mpIte
+	mpClearObj  // object obj reads as val (fresh map / cleared)
+	mpHavocObjs // objects below limit read from fresh
+	mpObjRange  // objects in [obj, limit] read from fresh (state transferred from another execution)
+)
+
+type MapNode struct {
+	kind  mapKind
+	id    int
+	sort  Sort
+	name  string
+	prev  *MapNode
+	obj   *Term
+	key   []*Term
+	val   *Term
+	c     *Term
+	a, b  *MapNode
+	limit *Term
+	fresh *MapNode
 }
 
-type mapState struct {
-	layers map[string]*mapLayer // by map type string
-	lens   *MemNode             // len per object: memory of BV64 at (obj, 0)
+func (mc *MemCtx) mnode(n *MapNode) *MapNode {
+	mc.nid++
+	n.id = mc.nid
+	return n
 }
 
-func (u *Unit) mapKey(t types.Type) string { return types.TypeString(t, nil) }
+func (mc *MemCtx) MSel(m *MapNode, obj *Term, key []*Term) *Term {
+	tb := mc.tb
+	switch m.kind {
+	case mpBase:
+		args := append([]*Term{obj}, key...)
+		return tb.UF(m.name, m.sort, args...)
+	case mpStore:
+		cs := []*Term{tb.Eq(obj, m.obj)}
+		for i := range key {
+			cs = append(cs, tb.Eq(key[i], m.key[i]))
+		}
+		c := tb.And(cs...)
+		if c.IsTrue() {
+			return m.val
+		}
+		if c.IsFalse() {
+			return mc.MSel(m.prev, obj, key)
+		}
+		return tb.Ite(c, m.val, mc.MSel(m.prev, obj, key))
+	case mpIte:
+		return tb.Ite(m.c, mc.MSel(m.a, obj, key), mc.MSel(m.b, obj, key))
+	case mpClearObj:
+		c := tb.Eq(obj, m.obj)
+		if c.IsTrue() {
+			return m.val
+		}
+		if c.IsFalse() {
+			return mc.MSel(m.prev, obj, key)
+		}
+		return tb.Ite(c, m.val, mc.MSel(m.prev, obj, key))
+	case mpObjRange:
+		c := tb.And(tb.Ule(m.obj, obj), tb.Ule(obj, m.limit))
+		if c.IsTrue() {
+			return mc.MSel(m.fresh, obj, key)
+		}
+		if c.IsFalse() {
+			return mc.MSel(m.prev, obj, key)
+		}
+		return tb.Ite(c, mc.MSel(m.fresh, obj, key), mc.MSel(m.prev, obj, key))
+	case mpHavocObjs:
+		c := tb.Ult(obj, m.limit)
+		if c.IsTrue() {
+			return mc.MSel(m.fresh, obj, key)
+		}
+		if c.IsFalse() {
+			return mc.MSel(m.prev, obj, key)
+		}
+		return tb.Ite(c, mc.MSel(m.fresh, obj, key), mc.MSel(m.prev, obj, key))
+	}
+	panic("MSel")
+}
 
-func (f *Frame) mapLayerOf(t types.Type) *mapLayer {
-	u := f.u
-	k := u.mapKey(t)
-	if u.maps == nil {
-		u.maps = map[string]*mapLayer{}
+// map state keys: "<type>#has", "<type>#v<i>"
+func (u *Unit) mapTypeKey(t types.Type) string { return types.TypeString(t.Underlying(), nil) }
+
+func (f *Frame) mapNode(mem MemState, key string, s Sort) *MapNode {
+	if n, ok := mem.mp[key]; ok {
+		return n
 	}
-	if l, ok := u.maps[k]; ok {
-		return l
+	panic(unsupported("map type not found by the pre-scan of the unit: " + key))
+}
+
+func (f *Frame) setMapNode(key string, n *MapNode) {
+	f.cur.mem = f.cur.mem.clone()
+	f.cur.mem.mp[key] = n
+}
+
+func (f *Frame) mapParts(t types.Type) (mt *types.Map, tk string, vsorts []Sort) {
+	mt = t.Underlying().(*types.Map)
+	tk = f.u.mapTypeKey(t)
+	vsorts = f.u.W.layout.Slots(mt.Elem())
+	return
+}
+
+func (f *Frame) keySlots(mt *types.Map, v []*Term, vt types.Type) []*Term {
+	// a key of interface type holds a boxed value; only identical key types are supported
+	if _, isIface := mt.Key().Underlying().(*types.Interface); isIface {
+		panic(unsupported("maps with interface keys"))
 	}
-	mt := t.Underlying().(*types.Map)
-	u.nsym++
-	l := &mapLayer{kind: 0, name: fmt.Sprintf("map!%d", u.nsym), vsorts: u.W.layout.Slots(mt.Elem()), id: u.nsym}
-	u.maps[k] = l
-	return l
+	return v
 }
 
 func (f *Frame) makeMap(x *ssa.MakeMap) {
-	panic(unsupported("maps (MakeMap) in " + f.fn.String()))
+	tb := f.tb()
+	_, tk, vs := f.mapParts(x.Type())
+	obj := f.allocObj()
+	f.u.mapObjs = append(f.u.mapObjs, f.u.objCtr)
+	f.setMapNode(tk+"#has", f.u.mc.mnode(&MapNode{kind: mpClearObj, sort: BoolSort, prev: f.mapNode(f.cur.mem, tk+"#has", BoolSort), obj: obj, val: tb.False()}))
+	for i, s := range vs {
+		k := fmt.Sprintf("%s#v%d", tk, i)
+		f.setMapNode(k, f.u.mc.mnode(&MapNode{kind: mpClearObj, sort: s, prev: f.mapNode(f.cur.mem, k, s), obj: obj, val: f.u.zeroOf(s)}))
+	}
+	f.setMapLen(obj, tb.BV(64, 0))
+	f.set(x, []*Term{obj})
+}
+
+func (f *Frame) mapHas(mem MemState, t types.Type, obj *Term, key []*Term) *Term {
+	tb := f.tb()
+	_, tk, _ := f.mapParts(t)
+	h := f.u.mc.MSel(f.mapNode(mem, tk+"#has", BoolSort), obj, key)
+	return tb.And(tb.Not(tb.Eq(obj, tb.BV(32, 0))), h)
+}
+
+func (f *Frame) mapLenTerm(mem MemState, obj *Term) *Term {
+	tb := f.tb()
+	l := f.u.mc.Sel(mem.m[mapLenKey], obj, tb.BV(64, 0))
+	return tb.Ite(tb.Eq(obj, tb.BV(32, 0)), tb.BV(64, 0), l)
 }
 
 func (f *Frame) mapUpdate(x *ssa.MapUpdate) {
-	panic(unsupported("maps (MapUpdate) in " + f.fn.String()))
+	tb := f.tb()
+	mt, tk, vs := f.mapParts(x.Map.Type())
+	obj := f.val(x.Map)[0]
+	key := f.keySlots(mt, f.val(x.Key), x.Key.Type())
+	val := f.val(x.Value)
+	f.oblig("nopanic:nil", "mapupdate", tb.Not(tb.Eq(obj, tb.BV(32, 0))), x.Pos(), "assignment to entry in nil map")
+	if fs := f.frameSpecActive(); fs != nil && !f.spec {
+		f.checkWrite(obj, tb.BV(64, 0), tb.BV(64, 1), "mapupdate", x.Pos())
+	}
+	had := f.u.mc.MSel(f.mapNode(f.cur.mem, tk+"#has", BoolSort), obj, key)
+	oldLen := f.u.mc.Sel(f.cur.mem.m[mapLenKey], obj, tb.BV(64, 0))
+	f.setMapNode(tk+"#has", f.u.mc.mnode(&MapNode{kind: mpStore, sort: BoolSort, prev: f.mapNode(f.cur.mem, tk+"#has", BoolSort), obj: obj, key: key, val: tb.True()}))
+	for i, s := range vs {
+		k := fmt.Sprintf("%s#v%d", tk, i)
+		f.setMapNode(k, f.u.mc.mnode(&MapNode{kind: mpStore, sort: s, prev: f.mapNode(f.cur.mem, k, s), obj: obj, key: key, val: val[i]}))
+	}
+	f.setMapLen(obj, tb.Ite(had, oldLen, tb.Add(oldLen, tb.BV(64, 1))))
 }
 
 func (f *Frame) lookup(x *ssa.Lookup) {
+	tb := f.tb()
 	if b, ok := x.X.Type().Underlying().(*types.Basic); ok && b.Info()&types.IsString != 0 {
-		tb := f.tb()
 		v := f.val(x.X)
 		idx := f.toInt64(f.val(x.Index)[0], x.Index.Type())
 		f.oblig("nopanic:index", "index", tb.Ult(idx, f.u.slen(v[0])), x.Pos(), "string index out of range")
 		f.set(x, []*Term{tb.UF("sbyte", BV8, v[0], idx)})
 		return
 	}
-	panic(unsupported("maps (Lookup) in " + f.fn.String()))
-}
-
-func (f *Frame) rangeNext(in ssa.Instruction) {
-	panic(unsupported("range over map/string in " + f.fn.String()))
+	mt, tk, vs := f.mapParts(x.X.Type())
+	obj := f.val(x.X)[0]
+	key := f.keySlots(mt, f.val(x.Index), x.Index.Type())
+	mem := f.cur.mem
+	if f.stub != nil && f.stub.oldLoads[x] {
+		mem = f.stub.old
+	}
+	ok := f.mapHas(mem, x.X.Type(), obj, key)
+	res := make([]*Term, len(vs))
+	for i, s := range vs {
+		k := fmt.Sprintf("%s#v%d", tk, i)
+		v := f.u.mc.MSel(f.mapNode(mem, k, s), obj, key)
+		res[i] = tb.Ite(ok, v, f.u.zeroOf(s))
+	}
+	f.loadFacts(mt.Elem(), res)
+	if x.CommaOk {
+		res = append(res, ok)
+	}
+	f.set(x, res)
 }
 
 func (f *Frame) mapDelete(c *ssa.CallCommon, in ssa.Instruction) {
-	panic(unsupported("maps (delete) in " + f.fn.String()))
+	tb := f.tb()
+	mt, tk, _ := f.mapParts(c.Args[0].Type())
+	obj := f.val(c.Args[0])[0]
+	key := f.keySlots(mt, f.val(c.Args[1]), c.Args[1].Type())
+	had := f.mapHas(f.cur.mem, c.Args[0].Type(), obj, key)
+	oldLen := f.u.mc.Sel(f.cur.mem.m[mapLenKey], obj, tb.BV(64, 0))
+	if fs := f.frameSpecActive(); fs != nil && !f.spec {
+		f.checkWrite(obj, tb.BV(64, 0), tb.BV(64, 1), "mapdelete", in.Pos())
+	}
+	f.setMapNode(tk+"#has", f.u.mc.mnode(&MapNode{kind: mpStore, sort: BoolSort, prev: f.mapNode(f.cur.mem, tk+"#has", BoolSort), obj: obj, key: key, val: tb.False()}))
+	f.setMapLen(obj, tb.Ite(had, tb.Sub(oldLen, tb.BV(64, 1)), oldLen))
+}
+
+// rangeNext: iteration over a map or string. The iterator is abstract: each Next
+// yields "ok" together with an arbitrary entry that is in the map at that moment (no
+// order, no exactly-once guarantee is modelled; termination is not proved).
+func (f *Frame) rangeNext(in ssa.Instruction) {
+	tb := f.tb()
+	switch x := in.(type) {
+	case *ssa.Range:
+		f.set(x, f.val(x.X)) // the iterator value carries the map object / the string
+		f.u.rangeOf[x] = x.X
+	case *ssa.Next:
+		rng, ok := x.Iter.(*ssa.Range)
+		if !ok {
+			panic(unsupported("Next on non-Range iterator"))
+		}
+		tup := x.Type().(*types.Tuple)
+		okT := f.u.fresh("rng!ok", BoolSort)
+		if x.IsString {
+			idx := f.u.fresh("rng!i", BV64)
+			s := f.val(rng.X)[0]
+			f.u.addFact(tb.Implies(okT, tb.Ult(idx, f.u.slen(s))))
+			r := f.u.fresh("rng!r", BVSort(32))
+			f.set(x, []*Term{okT, idx, r})
+			return
+		}
+		mt, tk, vs := f.mapParts(rng.X.Type())
+		obj := f.val(rng.X)[0]
+		kslots := f.u.freshValue("rng!k", tup.At(1).Type())
+		for _, fact := range f.u.validFacts(tup.At(1).Type(), kslots, tb.BVU(32, 0xffffffff)) {
+			f.u.addFact(fact)
+		}
+		f.u.strFacts(kslots)
+		_ = mt
+		has := f.mapHas(f.cur.mem, rng.X.Type(), obj, kslots)
+		f.u.addFact(tb.Implies(tb.And(f.cur.reach, okT), has))
+		vals := make([]*Term, len(vs))
+		for i, s := range vs {
+			k := fmt.Sprintf("%s#v%d", tk, i)
+			vals[i] = f.u.mc.MSel(f.mapNode(f.cur.mem, k, s), obj, kslots)
+		}
+		// the value component may be typed as invalid when unused
+		if _, isB := tup.At(2).Type().(*types.Basic); isB && tup.At(2).Type().(*types.Basic).Kind() == types.Invalid {
+			vals = nil
+		}
+		f.loadFacts(tup.At(2).Type(), vals)
+		res := append([]*Term{okT}, kslots...)
+		res = append(res, vals...)
+		f.set(x, res)
+	}
+}
+
+// map lengths live in a memory of their own (a map header is not addressable by Go pointers)
+const mapLenKey = "ml"
+
+func (f *Frame) setMapLen(obj, n *Term) {
+	f.cur.mem = f.cur.mem.clone()
+	f.cur.mem.m[mapLenKey] = f.u.mc.Store(f.cur.mem.m[mapLenKey], obj, f.tb().BV(64, 0), n)
 }
 
 func (u *Unit) mapLen(f *Frame, obj *Term) *Term {
-	return u.tb.UF("maplen", BV64, obj)
+	return f.mapLenTerm(f.cur.mem, obj)
 }
